@@ -91,8 +91,12 @@ func main() {
 		sc := bufio.NewScanner(os.Stdin)
 		sc.Buffer(make([]byte, 1<<20), 1<<26)
 		w := bufio.NewWriterSize(os.Stdout, 1<<20)
+		flushEach := os.Getenv("HARNESS_FLUSH") == "1" // set by the check when a shard timed out: names the op that hangs
 		for sc.Scan() {
 			fmt.Fprintln(w, execOp(sc.Text()))
+			if flushEach {
+				w.Flush()
+			}
 		}
 		w.Flush()
 	case "nets":
